@@ -71,21 +71,21 @@ func doRemove(c *core.Ctx, rev bool, names []string, pre bool, n *core.N) *core.
 	emit := func(rest ...string) { c.Emit("C06.remove", append(head, rest...)...) }
 	var rerr error
 	if p, msg := core.Safe(func() { rerr = t.RemoveTips(rev, names...) }); p {
-		emit("panic:"+core.Escape(msg), "", "", "", "-1", "1")
+		emit("panic:"+core.Escape(msg), "", "", "", "-1", "1", "1")
 		return nil
 	}
 	if rerr != nil {
-		emit("err", "", "", "", "-1", "1")
+		emit("err", "", "", "", "-1", "1", "1")
 		return nil
 	}
 	var after *core.N
 	var wf *core.WF
 	if p, msg := core.Safe(func() { after, wf = core.Alpha(t) }); p {
-		emit("panic-alpha:"+core.Escape(msg), "", "", "", "-1", "1")
+		emit("panic-alpha:"+core.Escape(msg), "", "", "", "-1", "1", "1")
 		return nil
 	}
 	if !wf.OK() {
-		emit("malformed:"+core.Escape(strings.Join(wf.Problems, "; ")), "", "", "", "-1", "1")
+		emit("malformed:"+core.Escape(strings.Join(wf.Problems, "; ")), "", "", "", "-1", "1", "1")
 		return nil
 	}
 	// index answers for every name that could be known to the index
@@ -122,8 +122,77 @@ func doRemove(c *core.Ctx, rev bool, names []string, pre bool, n *core.N) *core.
 	}); p {
 		nodeok = false
 	}
-	emit("ok", after.Dump(), core.StrList(existing), core.IntList(tis), fmt.Sprint(nb), b01(nodeok))
+	bits := "1"
+	if p, msg := core.Safe(func() { bits = checkBitsets(t, after) }); p {
+		bits = "0:panic-" + core.Escape(msg)
+	}
+	emit("ok", after.Dump(), core.StrList(existing), core.IntList(tis), fmt.Sprint(nb), b01(nodeok), bits)
 	return after
+}
+
+// tipsBelow lists the names of the tips on the far side of n when coming from prev.
+func tipsBelow(n, prev *tree.Node, out map[string]bool) {
+	if n.Tip() {
+		out[n.Name()] = true
+		return
+	}
+	for _, c := range n.Neigh() {
+		if c != prev {
+			tipsBelow(c, n, out)
+		}
+	}
+}
+
+// checkBitsets: after RemoveTips every branch must carry, as its bitset indexed by TipIndex(name),
+// exactly the split it induces on the remaining tips (width = number of tips), and the pruned tree
+// must share all its branches with a copy of the same tree built independently and indexed afresh.
+// Returns "1" or "0:<what is wrong>".
+func checkBitsets(t *tree.Tree, after *core.N) string {
+	tips := t.Tips()
+	if len(tips) < 3 {
+		return "1"
+	}
+	idx := map[string]uint{}
+	for _, tp := range tips {
+		i, err := t.TipIndex(tp.Name())
+		if err != nil || i < 0 {
+			return "0:no-tip-index-for-" + core.Escape(tp.Name())
+		}
+		idx[tp.Name()] = uint(i)
+	}
+	for _, e := range t.Edges() {
+		b := e.Bitset()
+		if b == nil {
+			return "0:nil-bitset"
+		}
+		if int(b.Len()) != len(tips) {
+			return fmt.Sprintf("0:bitset-width-%d-for-%d-tips", b.Len(), len(tips))
+		}
+		below := map[string]bool{}
+		tipsBelow(e.Right(), e.Left(), below)
+		for name, i := range idx {
+			if b.Test(i) != below[name] {
+				return "0:bitset-differs-from-the-tips-below-the-branch"
+			}
+		}
+	}
+	// an independent copy of the induced subtree
+	t2, err := core.Build(after)
+	if err != nil {
+		return "0:cannot-rebuild"
+	}
+	if err := t2.ReinitIndexes(); err != nil {
+		return "1" // (duplicate names: nothing to compare)
+	}
+	_, self, err1 := t2.CommonEdges(t2, false)
+	_, common, err2 := t.CommonEdges(t2, false)
+	if err1 != nil || err2 != nil {
+		return "0:CommonEdges-fails"
+	}
+	if common != self {
+		return fmt.Sprintf("0:CommonEdges-%d-of-%d", common, self)
+	}
+	return "1"
 }
 
 // Replay re-executes request lines on the real code.
@@ -474,6 +543,9 @@ func Run(c *core.Ctx) {
 		}
 		for i := 0; i < c.Scale(25, 400); i++ {
 			tipFileCase(c)
+		}
+		for i := 0; i < c.Scale(2, 12); i++ {
+			longTipFileCase(c, i)
 		}
 	}
 }
